@@ -12,6 +12,7 @@
 import Resonate.Proofs.SysDb
 import Resonate.Model.SqlSpec
 import Resonate.Model.Env
+import Resonate.Properties.C13
 namespace Resonate.C12
 
 def isResp (tid : String) : Event → Bool
@@ -330,6 +331,22 @@ theorem no_spurious_response (env : Env) (d : Dialect) (g : SqlDefs) (db : Db) (
   have := conservation tid cs (Sys.boot env d g db) hc hh
   have h0 : liveCount tid (Sys.boot env d g db) = 0 := by simp [liveCount, Sys.boot]
   omega
+
+theorem trace_run (cs : List Choice) : ∀ (s : Sys), (trace s cs).1 = s.run cs := by
+  induction cs with
+  | nil => intro s; rfl
+  | cons c cs ih => intro s; simp only [trace, Sys.run, List.foldl_cons]; exact ih _
+
+/-- **C12, exactly one — without the "does not halt" hypothesis.** With the kernel composition of C13
+    (`server_never_halts`): from a fresh server over a database with unique keys, along every run without process crash
+    that respects `RunOkV`, a request id submitted once has at every moment either exactly one response and is gone, or
+    no response yet and is still inside exactly once. -/
+theorem exactly_one_every_run (env : Env) (d : Dialect) (db : Db) (hk : KeysX db) (clk : Time) (tid : String) (cs : List Choice)
+    (hc : (cs.all fun c => !isCrash c) = true) (hok : C13.RunOkV clk (Sys.boot env d (SqlSpec.defs d) db) cs)
+    (honce : (cs.map (submitCount tid)).sum = 1) :
+    (respCount tid (trace (Sys.boot env d (SqlSpec.defs d) db) cs).2 = 1 ∧ liveCount tid (trace (Sys.boot env d (SqlSpec.defs d) db) cs).1 = 0) ∨
+    (respCount tid (trace (Sys.boot env d (SqlSpec.defs d) db) cs).2 = 0 ∧ liveCount tid (trace (Sys.boot env d (SqlSpec.defs d) db) cs).1 = 1) :=
+  exactly_one env d (SqlSpec.defs d) db tid cs hc (by rw [trace_run]; exact C13.server_never_halts d env db hk clk cs hok) honce
 
 /-- backpressure and shutdown are explicit answers: a submission that is not accepted is answered at once, with
     `shutting down` after shutdown was requested and `API queue full` when the queue is full; an accepted one is queued -/
